@@ -619,8 +619,19 @@ def r15_4_no_node_twice(ctx, rid='R15.4'):
             for x in n.args[0].elts:
                 if norm(x) == kv:
                     uses.append(n)
-    r.check(len(uses) <= 1, 'the key node itself is placed once (as the outer key); the inner key attribute is a copy '
-            '(%d direct placements)' % len(uses), f.key('key-node-placed-twice'), f.loc(lo),
+    # placements that can both happen in one pass of the loop (alternatives in different arms count once)
+    twice = False
+    for a in uses:
+        for b in uses:
+            if a is not b:
+                an, bn = f.nid(a), f.nid(b)
+                hdr = f.nid(lo.iter)
+                if an is not None and bn is not None and bn in f.cfg.reachable(an, avoid={hdr} if hdr is not None else set()):
+                    twice = True
+        if sum(1 for x in a.args[0].elts if norm(x) == kv) > 1:
+            twice = True
+    r.check(not twice, 'the key node itself is placed once per entry (as the outer key); the inner key attribute is a copy '
+            '(%d direct placements, never two on one path)' % len(uses), f.key('key-node-placed-twice'), f.loc(lo),
             'map_attribute_to_index places the same key node object both as the outer key and as the value of the key attribute: '
             'when the key attribute is a string-like/enum/Path class the shared node is retagged by the first reference and '
             'rejected at the second')
@@ -934,8 +945,18 @@ def r15_5_decisions(ctx):
             and '.value' in norm(n.func.value)]
     for a in apps:
         at = _inloop_atoms(f, a, lo)
-        r.check(len(at) == 1 and next(iter(at))[1] and 'isinstance(' in next(iter(at))[0] and 'MappingNode' in next(iter(at))[0],
-                'the key attribute is added to every mapping value', f.key('key-attribute-condition'), f.loc(a),
+        ok = len(at) == 1 and next(iter(at))[1] and 'isinstance(' in next(iter(at))[0] and 'MappingNode' in next(iter(at))[0]
+        if not ok:
+            # ... or to the mapping that was just built around a short-form value (the wrap condition, checked above)
+            base = a.func.value
+            while isinstance(base, ast.Attribute):
+                base = base.value
+            if isinstance(base, ast.Name):
+                ds = reaching_defs(f, a, base.id)
+                built = bool(ds) and all(isinstance(d, ast.Assign) and isinstance(d.value, ast.Call)
+                                         and norm(d.value.func) in ('yaml.MappingNode', 'MappingNode') for d in ds)
+                ok = built and at == {('isinstance(%s, yaml.MappingNode)' % vv, False), ('%s is None' % va, False)}
+        r.check(ok, 'the key attribute is added to every mapping value', f.key('key-attribute-condition'), f.loc(a),
                 'the key attribute is added under %s' % sorted(at))
     # index_attribute_to_map: short form
     f = fn(P, NODE + 'index_attribute_to_map')
